@@ -103,7 +103,7 @@ mod verif_c04 {
         std::mem::forget(bs);
     }
 
-    // @harness id=C04 tier=quick timeout=3000 mem=14
+    // @harness id=C04 tier=thorough timeout=3400 mem=28
     // @bounds dropping the last owner of an UNFINISHED bar state with every on_finish behaviour = that finish once (same final frame, limiter exhausted); dropping a FINISHED one performs no terminal call
     #[kani::proof]
     #[kani::unwind(13)]
